@@ -358,6 +358,10 @@ def run(ctx):
     rule_pm(ctx)
     rule_laser(ctx)
     check_late_binding(ctx, "C06.8", ["devices.MZM", "devices.PM", "devices.LASER"])
+    # PM(PM(x,a),b) = PM(x,a+b) and "identical results for every drive container": only if a call leaves its drive as it found it
+    from .c14 import rule_inplace
+    rule_inplace(ctx, "C06.9", ["devices.PM", "devices.MZM", "devices.LASER"])
+    ctx.require_min("C06.9", 3)
     ctx.require_min("C06.1", 16)
     ctx.require_min("C06.2", 16)
     ctx.require_min("C06.5", 6)
